@@ -58,6 +58,18 @@ def programs(depth, r, n):
     base = [("leaf", 1), ("leaf", 2), ("rev",)]
     level = list(base)
     allp = list(base)
+    # always present (never sampled away): stacks of inverse wrappers, alone and as stages / around composites
+    must = []
+    for lf in (("leaf", 1), ("leaf", 2)):
+        chain = lf
+        for m in range(4):
+            chain = ("inv", chain)
+            must.append(chain)
+            must.append(("comp", [chain, ("leaf", 3)]))
+            must.append(("comp", [("leaf", 3), chain, ("rev",)]))
+            must.append(("inv", ("comp", [chain, ("leaf", 3)])))
+    must.append(("inv", ("inv", ("comp", [("leaf", 1), ("leaf", 2)]))))
+    must.append(("comp", [("comp", [("leaf", 1)]), ("comp", []), ("inv", ("comp", [("leaf", 2), ("rev",)]))]))
     for d in range(depth):
         new = []
         pool = level if len(level) <= 9 else r.sample(level, 9)
@@ -75,11 +87,11 @@ def programs(depth, r, n):
     if len(allp) > n:
         head = allp[:40]
         allp = head + r.sample(allp[40:], n - 40)
-    return allp
+    return must + allp
 
 
 def run(tier, seed):
-    ck = Check("C08", tier, seed, areas=["compose"], gen_groups=[])
+    ck = Check("C08", tier, seed, areas=["compose"], gen_groups=["Wrappers"])
     ck.rule = ("wrapper programs (nestings of CompositeTransform / InverseTransform over integer-exact leaves x->2x+k "
                "with log-det 2^k, and a reversal) run on the real wrappers and on the extracted model with identical "
                "integer inputs; multiscale: all per-item shapes with <= 3 dims of size <= 4/5, every split_dim, 1-4 "
